@@ -38,7 +38,7 @@ BOUNDS = {
     for t in ("quick", "thorough")}
 OUTSIDE = [
     "lexing: whitespace and // comment skipping, '-1' lexed as a signed literal, keyword/RESERVED priority, literal regexes "
-    "(Lark's lexer is C `re`; literals are C07's subject) - witnesses are rendered with one sample lexeme per terminal, "
+    "(Lark's lexer is C `re`; literals are C07's subject) - witnesses are rendered with one sample lexeme per terminal (dump round trip: plus one of six alternative spellings per literal terminal, rotating), "
     "single spaces between tokens",
     "token strings longer than the bound",
     "that Lark's LALR(1) table realises the compiled productions: taken from LR theory, plus a logged-conflict check and a "
@@ -249,6 +249,9 @@ def _ambiguity(E, real, task, res, kf):
 
 
 # ----------------------------------------------------------------------------- dump round trip on enumerated solver models
+from ..cfgsat.encode import VARIANTS as E_VARIANTS  # noqa: E402
+
+
 class _Dump:
     """runs the concrete round-trip oracle on solver models; failures are grouped by a signature of the word's shape so that
     one defect does not crowd out another (one violation candidate per signature and task)"""
@@ -279,6 +282,13 @@ class _Dump:
         text, _ = self.real.render(names)
         self.words += 1
         ok, detail = O.dump_roundtrip(text, fresh=False)   # this process built the parser itself, once
+        if ok and any(n in E_VARIANTS for n in names):
+            # the same word with its literal terminals in alternative spellings (one variant per word, rotating); a spelling the
+            # live parser rejects round-trips vacuously (literal forms are C07's subject)
+            vtext, _ = self.real.render(names, variant=1 + self.words % 6)
+            ok, detail = O.dump_roundtrip(vtext, fresh=False)
+            if not ok:
+                text = vtext
         if ok:
             return
         ob = types.SimpleNamespace(id="C06/dump-roundtrip", observe={})
